@@ -1016,6 +1016,8 @@ def contains(container, item):
     if tc is TailView:
         tc = SymStr
     if ti is not SymStr and ti is not SymInt and ti is not Rope:
+        if tc is dict and _SYMKEYED and id(container) in _SYMKEYED and ti is str:
+            return (item in container) or _dict_find(container, item) is not None
         if tc is str or tc is dict or tc is set or tc is frozenset:
             return item in container
         if tc is list or tc is tuple:
@@ -1038,7 +1040,7 @@ def contains(container, item):
     if tc is SymStr:
         return container.__contains__(item)
     if isinstance(container, dict):
-        container = list(container.keys())
+        container = [(k.s if isinstance(k, SymKey) else k) for k in container.keys()]
     if isinstance(container, (set, frozenset)):
         container = sorted(container, key=repr)
     if isinstance(container, (list, tuple)):
@@ -1056,18 +1058,90 @@ def contains(container, item):
 
 def getitem(obj, key):
     tk = type(key)
-    if tk is int or tk is str:
+    if tk is int:
+        return obj[key]
+    if tk is str:
+        if _SYMKEYED and isinstance(obj, dict) and id(obj) in _SYMKEYED and key not in obj:
+            k = _dict_find(obj, key)
+            if k is not None:
+                return obj[k]
         return obj[key]
     if tk is TailView:
         tk = SymStr
     if tk is SymStr and isinstance(obj, dict):
-        for k, v in obj.items():
-            if isinstance(k, str) and len(k) == len(key) and key == k:
-                return v
+        k = _dict_find(obj, key)
+        if k is not None:
+            return obj[k]
         raise KeyError(key.concretize())
     if tk is SymInt and not isinstance(obj, SymStr):
         key = key.concretize()
     return obj[key]
+
+
+class SymKey:
+    """dictionary key standing for a symbolic string whose value the path condition does not determine (a cache keyed
+    by input text, a memo table).  Hash by length, equality by (forking) string comparison; the rewritten dict
+    accessors (getitem / contains / rt_get / setitem) look through it."""
+    __slots__ = ("s",)
+
+    def __init__(self, s):
+        self.s = s
+
+    def __hash__(self):
+        return hash(("symkey", len(self.s)))
+
+    def __eq__(self, o):
+        if isinstance(o, SymKey):
+            return self.s == o.s
+        if isinstance(o, (str, SymStr)):
+            return self.s == o
+        return False
+
+    def __repr__(self):
+        return f"SymKey({self.s!r})"
+
+
+_SYMKEYED = set()      # ids of the dicts that hold SymKeys
+
+
+def _dict_find(obj, key):
+    """the stored key of dict `obj` that equals the (symbolic or concrete) string `key`, else None"""
+    n = len(key)
+    for k in list(obj.keys()):
+        if isinstance(k, SymKey):
+            if len(k.s) == n and k.s == key:
+                return k
+        elif isinstance(k, str) and isinstance(key, SymStr):
+            if len(k) == n and key == k:
+                return k
+    return None
+
+
+def setitem(obj, key, val):
+    """obj[key] = val; a dict stored into under a symbolic string keeps it as a SymKey"""
+    tk = type(key)
+    if tk is TailView:
+        tk = SymStr
+    if tk is SymStr and isinstance(obj, dict):
+        try:
+            obj[key.unique()] = val
+            return
+        except EngineGap:
+            pass
+        k = _dict_find(obj, key)
+        if k is None:
+            k = SymKey(key)
+            _SYMKEYED.add(id(obj))
+        obj[k] = val
+        return
+    if tk is str and isinstance(obj, dict) and id(obj) in _SYMKEYED:
+        k = _dict_find(obj, key)
+        if k is not None:
+            obj[k] = val
+            return
+    if tk is SymInt and isinstance(obj, list):
+        key = key.concretize()
+    obj[key] = val
 
 
 class SymSet(list):
@@ -1107,10 +1181,14 @@ def rt_get(obj, key, *default):
     if tk is TailView:
         tk = SymStr
     if tk is SymStr and isinstance(obj, dict):
-        for k, v in obj.items():
-            if isinstance(k, str) and len(k) == len(key) and key == k:
-                return v
+        k = _dict_find(obj, key)
+        if k is not None:
+            return obj[k]
         return default[0] if default else None
+    if tk is str and isinstance(obj, dict) and id(obj) in _SYMKEYED and key not in obj:
+        k = _dict_find(obj, key)
+        if k is not None:
+            return obj[k]
     if tk is SymInt and isinstance(obj, dict):
         key = key.concretize()
     return obj.get(key, *default)
